@@ -189,6 +189,8 @@ func C14(c *Ctx) {
 	c.R.Rule("C14-R10", "E3", "the crew loop processes each received message once and hands on every result", 2)
 	c14Loop(c, "C14-R10")
 	c14BroadcastDecision(c, "C14-R1")
+	c.R.Rule("C14-R11", "E3+E5", "a selected machine that exists is walked, with the message as it was routed", 2)
+	c14RoutedAsIs(c, "C14-R11")
 	c.shareRule("C04", "C04-R3", "C14-R9", "a message a machine was shown is recorded as consumed whatever came of it: Walk pops only on that record, so a machine is not shown the same message twice")
 	c.R.Rule("C14-R7", "E1", "Walk never writes the batch it is given: every recipient of a broadcast is offered the same messages", 1)
 	c.batchUntouched("C14-R7")
